@@ -108,6 +108,7 @@ func runC12(c *core.Ctx) {
 	}
 	c.Floor("ignore.funnel", 2)
 
+	checkDeferredDiagnostics(c)
 	if os.Getenv("FV_C12_UNBR") != "" {
 		for _, l := range listUnbracketedErrors(c) {
 			fmt.Fprintln(os.Stderr, "UNBR", l)
@@ -393,7 +394,7 @@ func runC12(c *core.Ctx) {
 								continue // rangeindex loop: i+1 < len
 							}
 						}
-						if bo.Op == token.EQL {
+						if bo.Op == token.EQL || bo.Op == token.NEQ {
 							_, xs := bo.X.(*ssa.Const)
 							_, ys := bo.Y.(*ssa.Const)
 							if (xs || ys) && dominatingOrSelfStringConst(bo) != "" {
@@ -770,52 +771,168 @@ func runC12(c *core.Ctx) {
 			c.Report("ignore.filter", "IsEnable|"+set, isEnable.Pos(), fmt.Sprintf("IsEnable does not consult %s (.all reads=%d, .rules[rule] lookups=%d): a listed rule is not matched against the diagnostic's rule", set, v[0], v[1]))
 		}
 	}
-	// every read must be able to make the result true: the result is the OR of all reads (no negation, no AND)
-	for _, b := range isEnable.Blocks {
-		for _, in := range b.Instrs {
-			switch t := in.(type) {
-			case *ssa.UnOp:
-				if t.Op == token.NOT {
-					c.Report("ignore.filter", "IsEnable|negation", in.Pos(), "IsEnable negates one of its reads")
-				}
-			case *ssa.BinOp:
-				c.Report("ignore.filter", "IsEnable|binop", in.Pos(), "IsEnable combines its reads with an operator other than short-circuit OR")
-			}
-		}
-	}
-	checkOrChain(c, isEnable)
+	// the result must be the OR of all six reads: decided on the truth table (64 rows) of the function's SSA, whatever
+	// the shape (an || chain, separate early returns, a switch), with every read of the same set and kind one variable
+	checkOrTable(c, isEnable, ruleParam)
 	// ignoreRules / unignoreRules bodies
 	checkRuleSetBodies(c, ign, unign)
 	c.Floor("ignore.filter", 5)
 	_ = lfuncs
 }
 
-// checkOrChain: every If in IsEnable sends its true edge to a block whose phi operand is the constant true
-// (a || b || c lowering), so any single read can enable the result.
-func checkOrChain(c *core.Ctx, fn *ssa.Function) {
-	for _, b := range fn.Blocks {
-		iff, ok := b.Instrs[len(b.Instrs)-1].(*ssa.If)
-		if !ok {
-			continue
-		}
-		t := b.Succs[0]
-		good := false
-		for _, in := range t.Instrs {
-			phi, ok := in.(*ssa.Phi)
-			if !ok {
-				break
+// checkOrTable: IsEnable is a boolean function of six reads (.all and .rules[rule] of the three sets). Its SSA is
+// evaluated for every assignment of the six reads; a branch on anything else is followed both ways. Every return reached
+// must carry the OR of the six variables.
+func checkOrTable(c *core.Ctx, fn *ssa.Function, ruleParam *ssa.Parameter) {
+	setIdx := map[string]int{"ignoreNextLine": 0, "ignoreThisLine": 1, "ignoreRange": 2}
+	leaf := func(v ssa.Value) (int, bool) {
+		var fa *ssa.FieldAddr
+		kind := 0
+		switch t := v.(type) {
+		case *ssa.UnOp:
+			if t.Op != token.MUL {
+				return 0, false
 			}
-			for i, p := range t.Preds {
-				if p == b {
-					if k, ok := phi.Edges[i].(*ssa.Const); ok && k.Value != nil && k.Value.Kind() == constant.Bool && constant.BoolVal(k.Value) {
-						good = true
+			fa, _ = t.X.(*ssa.FieldAddr)
+		case *ssa.Lookup:
+			if t.CommaOk || t.Index != ssa.Value(ruleParam) {
+				return 0, false
+			}
+			if ld, ok := t.X.(*ssa.UnOp); ok && ld.Op == token.MUL {
+				fa, _ = ld.X.(*ssa.FieldAddr)
+			}
+			kind = 1
+		}
+		if fa == nil || core.FieldOf(fa) == nil {
+			return 0, false
+		}
+		if (kind == 0 && core.FieldOf(fa).Name() != "all") || (kind == 1 && core.FieldOf(fa).Name() != "rules") {
+			return 0, false
+		}
+		outer, ok := fa.X.(*ssa.FieldAddr)
+		if !ok || core.FieldOf(outer) == nil {
+			return 0, false
+		}
+		si, ok := setIdx[core.FieldOf(outer).Name()]
+		if !ok {
+			return 0, false
+		}
+		return si*2 + kind, true
+	}
+	bad := map[string]token.Pos{}
+	for row := 0; row < 64; row++ {
+		want := row != 0
+		phiEnv := map[*ssa.Phi]int{}
+		var eval func(v ssa.Value) (bool, bool)
+		eval = func(v ssa.Value) (bool, bool) {
+			if i, ok := leaf(v); ok {
+				return row&(1<<i) != 0, true
+			}
+			switch t := v.(type) {
+			case *ssa.Const:
+				if t.Value != nil && t.Value.Kind() == constant.Bool {
+					return constant.BoolVal(t.Value), true
+				}
+			case *ssa.UnOp:
+				if t.Op == token.NOT {
+					if x, ok := eval(t.X); ok {
+						return !x, true
+					}
+				}
+			case *ssa.Phi:
+				if e, has := phiEnv[t]; has {
+					return eval(t.Edges[e])
+				}
+			case *ssa.BinOp:
+				x, okx := eval(t.X)
+				y, oky := eval(t.Y)
+				if okx && oky {
+					switch t.Op {
+					case token.EQL:
+						return x == y, true
+					case token.NEQ, token.XOR:
+						return x != y, true
+					case token.AND:
+						return x && y, true
+					case token.OR:
+						return x || y, true
 					}
 				}
 			}
+			return false, false
 		}
-		if !good {
-			c.Report("ignore.filter", "IsEnable|or-chain", iff.Pos(), "a read in IsEnable does not short-circuit the result to true")
+		steps := 0
+		onPath := map[*ssa.BasicBlock]bool{}
+		var walk func(b *ssa.BasicBlock, from int)
+		walk = func(b *ssa.BasicBlock, from int) {
+			steps++
+			if steps > 5000 || onPath[b] {
+				if steps > 5000 {
+					bad["IsEnable|table|undecided"] = fn.Pos()
+				}
+				return
+			}
+			onPath[b] = true
+			defer func() { onPath[b] = false }()
+			var saved []*ssa.Phi
+			for _, in := range b.Instrs {
+				if ph, isPhi := in.(*ssa.Phi); isPhi && from >= 0 {
+					if _, had := phiEnv[ph]; !had {
+						saved = append(saved, ph)
+					}
+					phiEnv[ph] = from
+				}
+			}
+			defer func() {
+				for _, ph := range saved {
+					delete(phiEnv, ph)
+				}
+			}()
+			predIdx := func(s *ssa.BasicBlock) int {
+				for i, p := range s.Preds {
+					if p == b {
+						return i
+					}
+				}
+				return -1
+			}
+			switch t := b.Instrs[len(b.Instrs)-1].(type) {
+			case *ssa.Return:
+				if len(t.Results) != 1 {
+					return
+				}
+				got, ok := eval(t.Results[0])
+				if !ok {
+					bad["IsEnable|table|undecided"] = t.Pos()
+				} else if got != want {
+					bad["IsEnable|or-chain"] = t.Pos()
+				}
+			case *ssa.If:
+				v, ok := eval(t.Cond)
+				if !ok {
+					walk(b.Succs[0], predIdx(b.Succs[0]))
+					walk(b.Succs[1], predIdx(b.Succs[1]))
+				} else if v {
+					walk(b.Succs[0], predIdx(b.Succs[0]))
+				} else {
+					walk(b.Succs[1], predIdx(b.Succs[1]))
+				}
+			default:
+				for _, s := range b.Succs {
+					walk(s, predIdx(s))
+				}
+			}
 		}
+		walk(fn.Blocks[0], -1)
+	}
+	if p, has := bad["IsEnable|table|undecided"]; has {
+		c.Report("ignore.filter", "IsEnable|table|undecided", p, "the result of IsEnable cannot be evaluated from its six reads (undecided obligations fail)")
+	}
+	if p, has := bad["IsEnable|or-chain"]; has {
+		c.Report("ignore.filter", "IsEnable|or-chain", p, "IsEnable is not the OR of the six reads (.all and .rules[rule] of the three sets): for some combination of the reads it returns the opposite")
+	}
+	if len(bad) == 0 {
+		c.Discharge("ignore.filter", "IsEnable|or-chain", fn.Pos(), "truth table of 64 rows: the result is the OR of the six reads")
 	}
 }
 
@@ -887,19 +1004,13 @@ func checkRuleSetBodies(c *core.Ctx, ign, unign *ssa.Function) {
 					if !ok {
 						continue
 					}
-					bo, ok := iff.Cond.(*ssa.BinOp)
-					if !ok {
-						continue
+					if x, z, isZ := core.ZeroEdge(iff.Cond); isZ && rulesParam != nil && core.BackSlice(x)[rulesParam] && core.EdgeDominates(blk, z, b) {
+						emptyPath = true
 					}
-					if bo.Op == token.EQL {
-						if k, isK := core.ConstIntValue(bo.Y); isK && k == 0 && rulesParam != nil && core.BackSlice(bo.X)[rulesParam] && core.EdgeDominates(blk, 0, b) {
-							emptyPath = true
-						}
-						if core.IsNilConst(bo.Y) && core.EdgeDominates(blk, 0, b) {
-							for x := range core.BackSlice(bo.X) {
-								if f := core.FieldOf(x); f != nil && f.Name() == "rules" {
-									nilGuard = true
-								}
+					if bo, eq, isEq := core.EqCond(iff.Cond); isEq && core.IsNilConst(bo.Y) && core.EdgeDominates(blk, eq, b) {
+						for x := range core.BackSlice(bo.X) {
+							if f := core.FieldOf(x); f != nil && f.Name() == "rules" {
+								nilGuard = true
 							}
 						}
 					}
